@@ -28,6 +28,7 @@ type Opts struct {
 	Report         map[string]bool // violation classes to report: ret, query, frozen, rev, changes, abort
 	SchemaPick     []int           // indexes into Schemas to choose from (nil = all)
 	Initializers   bool            // transactions also register table initializers and mark them done
+	Remote         bool            // committed states are also queried through the HTTP handler and RemoteTable (not in bubbles)
 	AbortPct       int
 	Ctl            *hookctl.Ctl      // hook controller (needed for ForceGC)
 	Quiesce        bool              // drain + bounded-collection checks (C08)
@@ -129,6 +130,9 @@ type Sim struct {
 	nextInit                     int
 	foreign                      int // divergences seen that belong to other checks' classes
 	wseqs                        []*wseq
+	rem                          *remote
+	remoteChecks                 int
+	restarts                     int
 	wseqChecks                   int
 	forceSet                     []*simTable                    // table set of the next RunTxn (nested transactions)
 	forced                       *forcedOp                      // the next RunTxn performs exactly this operation and commits
@@ -880,6 +884,7 @@ func (s *Sim) RunTxn(i int) {
 	s.watchesAfterCommit(what)
 	fresh := s.DB.ReadTxn()
 	for _, t := range s.Tabs {
+		s.remoteBattery(what+" after commit", t, t.committed)
 		s.battery(what+" commit-snapshot", rtxn, t, t.committed, "query")
 		if s.Rng.IntN(2) == 0 {
 			s.battery(what+" fresh-snapshot", fresh, t, t.committed, "query")
@@ -951,6 +956,8 @@ func (s *Sim) Finish(nontrivial bool) {
 	s.R.Count("commits", int64(s.commits))
 	s.R.Count("aborts", int64(s.aborts))
 	s.R.Count("retained_wtxn_sequences_reranged", int64(s.wseqChecks))
+	s.R.Count("remote_queries_compared", int64(s.remoteChecks))
+	s.R.Count("db_restarts_with_open_iterators", int64(s.restarts))
 	if s.R.WantSample() {
 		tail := s.Log
 		if len(tail) > 45 {
